@@ -112,7 +112,7 @@ func VerifC11Filter() {
 		f := vault.LastFilters[0]
 		api.Assert(len(f.ByIDs) == 0 && len(f.ByGroupIDs) == 0 && len(f.ByStatus) == 1 && f.ByStatus[0] == workflow.Running, "start-up considers exactly the plans durably Running")
 	}
-	if api.ClockReadings() == 0 {
+	if api.Symbolic() && api.ClockReadings() == 0 {
 		// nothing was Running: the clock is never read
 		for _, p := range plans {
 			api.Assert(before[p.ID].Status != workflow.Running, "a Running plan is examined")
@@ -193,6 +193,9 @@ func VerifC11New() {
 		p.State.Status = st
 		if st == workflow.Running {
 			p.State.Start = time.Unix(0, 1_000_000_500)
+			if !api.Symbolic() {
+				p.State.Start = time.Now() // native replay: recent on the real clock
+			}
 		}
 		mon.Track(p)
 		vault.Seed(p)
